@@ -138,6 +138,11 @@ func (interp *Interpreter) CompileAST(n ast.Node) (*Program, error) {
 
 // Execute executes compiled Go code.
 func (interp *Interpreter) Execute(p *Program) (res reflect.Value, err error) {
+	interp.rearm()
+	return interp.execute(p)
+}
+
+func (interp *Interpreter) execute(p *Program) (res reflect.Value, err error) {
 	defer func() {
 		r := recover()
 		if r != nil {
@@ -194,7 +199,7 @@ func (interp *Interpreter) ExecuteWithContext(ctx context.Context, p *Program) (
 	done := make(chan struct{})
 	go func() {
 		defer close(done)
-		res, err = interp.Execute(p)
+		res, err = interp.execute(p)
 	}()
 
 	select {
